@@ -165,6 +165,12 @@ func c15Transfer(c *h.Ctx, id string, r *rand.Rand) {
 	nVer := 1 + r.Intn(4)
 	versions := r.Perm(nVer)
 	objName, _ := enc.NameFromStr(fmt.Sprintf("/obj/%d", r.Intn(3)))
+	if r.Intn(3) == 0 {
+		// deep object names (1..22 components): slice capacities differ with the depth
+		for d := r.Intn(21); d > 0; d-- {
+			objName = append(objName, enc.NewStringComponent(8, fmt.Sprintf("d%d", d)))
+		}
+	}
 	spare := r.Intn(2) == 0
 	contents := map[uint64][]byte{}
 	var newest uint64
